@@ -3,11 +3,9 @@ import CalVerif.Model.Ovba
 /-! `VbaProject::new` = `Cfb::new` followed by `VbaProject::from_cfb` (models of C13 and C18 composed), and the
     accessors `get_module_raw` / `get_module`.
 
-    The streams are looked up with the reader state right after `Cfb::new` (`Cfb.lookupOf`, stateless): on the layouts
-    `Cfb.Valid` describes (root size a multiple of 64) a lookup does not depend on what was read before, which is what
-    `vba_from_container` uses. On a file whose root entry gives the mini stream an unpadded length the real reader's
-    lookups DO depend on their order (ledger: known finding `exact-root-size+regular-stream`, C13 `unpaddedroot`);
-    the chained behaviour is `Cfb.getStream` threaded call by call (C13's `runGets`), not this composition.
+    The streams are looked up with the reader state right after `Cfb::new` (`Cfb.lookupOf`, stateless): a lookup does
+    not depend on what was read before (since /repo 3eeaae6 also when the root entry gives the mini stream an unpadded
+    length: mini sectors are served from memory only).
 
     Stream names: `from_cfb` decodes the MODULESTREAMNAME bytes with the project's encoding and looks the
     resulting string up in the compound-file directory. `decodeName` stands for that decoder (encoding_rs,
